@@ -139,6 +139,104 @@ def planar_cases(rng, n, size):
     return out
 
 
+def planar_fine_cases(rng, n, size):
+    """Planar patches scaled in lon/lat to face sizes ~1e-2 .. 1e-5 rad, at a generic position, near a pole and
+    across the antimeridian.  Scaling in the (lon, lat) chart keeps incidence and orientation (float pre-check)."""
+    out = []
+    spots = [("generic", 33.3, 41.7), ("pole", 10.0, 89.5), ("antimeridian", 180.0, -30.0), ("southpole", -120.0, -89.7)]
+    for k in range(n):
+        nx, ny = rng.randint(3, size), rng.randint(3, size)
+        x, y, faces = meshgen.planar_mixed(nx, ny, rng, holes=rng.choice([0.0, 0.0, 0.2]))
+        tag, lon0, lat0 = spots[k % len(spots)]
+        s = [1e-2, 1e-3, 1e-4, 1e-5][(k // len(spots)) % 4]       # patch spans 40*s degrees: faces ~ 40*s/nx degrees
+        lon = [((lon0 + s * a + 180.0) % 360.0) - 180.0 for a in x]
+        lat = [lat0 + s * b for b in y]
+        out.append(
+            {"id": "planarfine:%d:%dx%d:%s:s=%g" % (k, nx, ny, tag, s), "faces": faces, "lon": lon, "lat": lat, "n_node": len(lon),
+             "closed": False, "check_ccw": True, "variant": k, "n_qual": 1, "fine": s}
+        )  # fmt: skip
+    return out
+
+
+def _dot(a, b):
+    return a[0] * b[0] + a[1] * b[1] + a[2] * b[2]
+
+
+def _det(a, b, c):
+    return (
+        a[0] * (b[1] * c[2] - b[2] * c[1]) - a[1] * (b[0] * c[2] - b[2] * c[0]) + a[2] * (b[0] * c[1] - b[1] * c[0])
+    )
+
+
+def shrink(case, centre, M, tag):
+    """The part of a TLC-certified mesh inside a cap around `centre`, shrunk by 1/M about it.
+
+    Gnomonic projection onto the tangent plane at the centre maps great circles to straight lines; a homothety of
+    that plane with factor 1/M keeps lines, incidence, convexity and orientation; so the shrunk faces are convex and
+    counter-clockwise because the catalogue faces are (class inherited from the base mesh).  In exact integers node v
+    goes to (M-1)(v.c) c + (c.c) v.  The combinatorial ring oracle does not depend on scale.  Python integers are
+    unbounded, and the orientation of every shrunk face is re-checked exactly as an admission test (not a verdict)."""
+    nodes, cc = case["nodes"], _dot(centre, centre)
+    inside = lambda v: _dot(v, centre) > 0 and 4 * _dot(v, centre) ** 2 > cc * _dot(v, v)  # within 60 degrees of the centre
+    faces = [f for f in case["faces"] if all(inside(nodes[k]) for k in f)]
+    if not faces:
+        return None
+    used = sorted({k for f in faces for k in f})
+    new = {old: i for i, old in enumerate(used)}
+    faces = [[new[k] for k in f] for f in faces]
+    pts = []
+    for k in used:
+        v = nodes[k]
+        a, b = (M - 1) * _dot(v, centre), cc
+        pts.append([a * centre[i] + b * v[i] for i in range(3)])
+    # at least one fully surrounded node with >= 3 faces, else nothing is judged for ring order (selection only)
+    cnt = {}
+    for f in faces:
+        for i in range(len(f)):
+            e = frozenset((f[i], f[(i + 1) % len(f)]))
+            cnt[e] = cnt.get(e, 0) + 1
+    surrounded = [
+        v for v in range(len(pts))
+        if sum(v in f for f in faces) >= 3 and all(cnt[e] == 2 for e in cnt if v in e)
+    ]  # fmt: skip
+    if not surrounded:
+        return None
+    for f in faces:
+        for i in range(len(f)):
+            a, b = pts[f[i]], pts[f[(i + 1) % len(f)]]
+            if any(_det(a, b, pts[w]) <= 0 for w in f if w not in (f[i], f[(i + 1) % len(f)])):
+                raise Machinery("shrunk face is not convex counter-clockwise: %s %s" % (case["id"], tag))
+    return {
+        "id": "%s/shrunk:%s:M=%d" % (case["id"], tag, M), "name": case["name"], "rot": case["rot"], "cut": case["cut"],
+        "renumbered": False, "nodes": pts, "faces": faces, "closed": False, "n_qual": len(surrounded),
+        "n_surrounded": len(surrounded), "valences": case["valences"], "fine": 1.0 / M,
+        "pole_node": any(p[0] == 0 and p[1] == 0 for p in pts), "antimeridian_node": any(p[1] == 0 and p[0] < 0 for p in pts),
+    }  # fmt: skip
+
+
+def shrunk_cases(gen, rng, n, Ms):
+    """Fine meshes: caps of catalogue meshes shrunk about a node (exactly at a pole / on the antimeridian for the
+    rotated images), about a point next to a node (near the pole, generic) and about face interior points."""
+    pool = [c for c in gen if c["closed"] and not c["renumbered"]]
+    out, tries = [], 0
+    while len(out) < n and tries < 40 * n:
+        tries += 1
+        c = rng.choice(pool)
+        kind = ("node", "near", "face")[tries % 3]
+        if kind == "face":
+            f = rng.choice(c["faces"])
+            centre = [sum(c["nodes"][k][i] for k in f) for i in range(3)]
+        else:
+            v = rng.choice(c["nodes"])
+            w = rng.choice([(1, 2, 3), (0, 1, 0), (-2, 1, 1), (3, -1, 2)]) if kind == "near" else (0, 0, 0)
+            centre = [(40 if kind == "near" else 1) * v[i] + w[i] for i in range(3)]
+        M = Ms[len(out) % len(Ms)]
+        r = shrink(c, centre, M, "%s%s" % (kind, "".join("%+d" % x for x in centre)))
+        if r is not None and r["id"] not in {x["id"] for x in out}:
+            out.append(r)
+    return out
+
+
 def start_jit_off(ctx, cases):
     """Replay a subset with numba's JIT disabled, in one subprocess (runs beside the main replay)."""
     src = os.path.join(ctx.work, "jitoff_cases.json")
@@ -242,8 +340,16 @@ def run(ctx):
     cases = [c for c in cases if c["n_qual"] > 0]
     ctx.note("not_judged_no_node_with_three_faces", len(skipped_degenerate))
 
+    # fine meshes: caps of the certified meshes shrunk to face sizes 1e-1 .. 1e-6 of the original
+    fine = shrunk_cases(gen, rng, 400 if thorough else 90, [10, 100, 1000, 10**4, 10**5, 10**6] if thorough else [100, 10**4, 10**5, 10**3])
+    for k, c in enumerate(fine):
+        cases.append(dict(c, variant=k, centres="derived"))
+    ctx.note("fine_meshes", {"shrunk_catalogue_caps": len(fine), "with_pole_node": sum(c["pole_node"] for c in fine),
+                             "with_antimeridian_node": sum(c["antimeridian_node"] for c in fine)})  # fmt: skip
+
     # inputs beyond the enumerated scope (code -> spec)
     big = planar_cases(rng, 150 if thorough else 12, 14 if thorough else 9)
+    big += planar_fine_cases(rng, 64 if thorough else 16, 9)
     if thorough:
         for tag, path, kw in FILES:
             if os.path.exists(path):
@@ -253,7 +359,7 @@ def run(ctx):
     # JIT off: a subset, in one subprocess
     jo_src = [c for c in cases if c["centres"] == "derived" and (c["rot"] in (0, rots[2]) or c["renumbered"])]
     jo_src = rng.sample(jo_src, min(len(jo_src), 600 if thorough else 70))
-    jo_cases = [dict(c, id=c["id"] + "/jit=off") for c in jo_src] + [dict(c, id=c["id"] + "/jit=off") for c in big[:6]]
+    jo_cases = [dict(c, id=c["id"] + "/jit=off") for c in jo_src] + [dict(c, id=c["id"] + "/jit=off") for c in big[:6] + [b for b in big if b.get("fine")][:6]]
     proc, dst = start_jit_off(ctx, jo_cases)
 
     # 2. replay into the implementation ---------------------------------------------------
@@ -272,6 +378,7 @@ def run(ctx):
     if notrun and not errs:
         raise Machinery("%d cases were not replayed although no single case reproduced the crash of a replay worker" % len(notrun))
     ctx.note("replay_pool", pool_info)
+    ctx.note("dual_nodes_accepted_through_pole_snap", {"records": sum(bool(r.get("pos_snapped")) for r in recs), "nodes": sum(r.get("pos_snapped", 0) for r in recs)})
     ctx.note("dataset_path", {"judged": sum("dsdata" in r for r in recs), "unavailable": sum("dataset_unavailable" in r for r in recs)})
     good = [r for r in recs if "skip" not in r and "error" not in r and "notrun" not in r]
     small = [r for r in good if len(r["mesh"]) <= 60]
@@ -289,6 +396,7 @@ def run(ctx):
             "jit": "off" if rid.endswith("/jit=off") else "on",
             "closed": bool(c["closed"]),
             "source": "file" if "file" in c else ("planar" if "lon" in c else "catalogue"),
+            "fine": bool(c.get("fine")),
         }
 
     def replay_of(rid):
@@ -339,6 +447,8 @@ def run(ctx):
         "partial grids: 'surrounded by at least three faces' is read as 'at least three faces meet at the node' (DESIGN 6/C18); "
         "ring order is judged only at fully surrounded nodes, and the numbering of dual faces is left free",
         "JIT off = NUMBA_DISABLE_JIT=1 with numba's DISABLE_JIT frozen in the subprocess (uxarray/grid/area.py resets it at import)",
+        "a face centre within the library's pole-snap cap (1 - |z| < 1e-8, i.e. ~1.4e-4 rad from a pole) may be reported at the pole "
+        "itself (C04's stated pole-snapping tolerance); such dual nodes are counted in the evidence, not judged to 1e-8 rad",
         "grids whose file supplies its own face centres (MPAS) are judged against the centres the grid reports, not the centroid oracle",
         "UxDataset.get_dual is judged only when a UxDataset can be built at all (C10's subject); otherwise noted",
     ]
